@@ -5,6 +5,7 @@ level claimed and the clauses that are NOT decided (reported in evidence on ever
 GROUPS = {
     'par': ('rules_par', 'run'),
     'err': ('rules_err', 'run'),
+    'grow': ('rules_grow', 'run'),
 }
 
 # property -> dict(groups, rules, level, undecided, trusted)
@@ -66,4 +67,13 @@ PROPS = {
         level_note='Trusted: rustc drop elaboration (a discarded value is an explicit Drop), `?`/From semantics, buffer_redux read_into_buf returning the source error unchanged.',
         undecided=['"records returned before the failure are exactly the leading records" (parsing correctness, value-level)'],
         trusted=COMMON_TRUST + ['buffer_redux::BufReader::read_into_buf forwards the error of the underlying Read unchanged']),
+    'C09': dict(
+        groups=['grow', 'err'],
+        rules=['GROW-1', 'GROW-2', 'GROW-3', 'GROW-4', 'GROW-5', 'GROW-6', 'AFF-1', 'AFF-2', 'AFF-3'],
+        level='other',
+        technique='static analysis of MIR: who-may-call (single growth site), operand provenance, control-dependence of the growth call, field-wise aggregate check, symbolic path extraction of the policies compared with the documented function on every ordering cell of their terms',
+        level_text='Decides, for every source type and every policy type: reserve has one caller per format; the policy is asked with capacity() and the difference to its answer is reserved; BufferLimit exists only as the refusal of that call; the growth call is reachable only through "compaction forbidden" or "record already at offset 0" with compaction on the other branch; compaction is forbidden only in exact-count batches; set_policy copies every field; the three built-in policies equal the documented functions (loop-free bodies, enumerated path formulas). "Does not fit" as a semantic fact of the search is not decided.',
+        level_note='Trusted: buffer_redux reserve/capacity semantics; sizes below 2^62 (overflow of the policy arithmetic is ignored).',
+        undecided=['that a full buffer with the record at offset 0 is the only situation reaching the growth call depends on the value-level search (BUF-2 + GROW-4 give the structural half)'],
+        trusted=COMMON_TRUST + ['buffer_redux::BufReader::{capacity, reserve}: reserve(n) makes room for n more bytes; nothing else changes the capacity']),
 }
